@@ -18,6 +18,11 @@
    (calc, index) the real heap's order is unspecified; the model picks the smaller idx (a prediction that differs
    from the code there is a drift, judged by the contract - never a violation by itself).
 
+   The buffer has NO capacity: Release (everything with calc + thr < rx) and the final Flush are the only ways out of
+   the heap, however many messages it holds (the code's `with_capacity(1024 * 1024)` is a preallocation, not a limit; a
+   forced release at some fill level would break OrderedUnderBound as soon as more messages than that sit inside the
+   buffering window - the driver's burst cases hold > 2^20).  HeldUntilOld states it as an invariant.
+
    Invariants (TLC, all bounded behaviours): ThrAtLeastD (the crux of the ordering argument), Permutation,
    OrderedUnderBound.  With Record = TRUE the inputs are remembered and EmitScn prints one scenario line per
    complete behaviour: inputs, the predicted output order and the contract's verdict on it.                  *)
@@ -126,6 +131,9 @@ Permutation == /\ Len(out) + Cardinality(heap) = n
                /\ (done => heap = {})
 Sorted == \A i \in 1..(Len(out) - 1) : KeyLE(out[i], out[i + 1])     \* (strict when the index fields are unique)
 OrderedUnderBound == bound => Sorted
+\* no forced release: before End, whatever has left the heap was older than the threshold when it left, i.e. everything
+\* still younger is still held - equivalently: nothing in `out` could still be overtaken by a message within the bound
+HeldUntilOld == ~done => \A i \in 1..Len(out) : out[i].calc + D < rxNow \/ ~bound
 ContractOk == Permutation /\ OrderedUnderBound
 
 \* scenario emission (Record = TRUE): one line per complete behaviour
